@@ -22,6 +22,8 @@ pub enum SrvProto {
 pub struct Scn {
     pub name: String,
     pub srv: SrvProto,
+    /// clients that connect and send nothing (0) or the first n bytes of the HTTP/2 preface, then stay silent
+    pub silent: Vec<usize>,
     pub clients: Vec<Proto>,
     pub late_client: bool,
     pub bufsize: usize,
@@ -71,6 +73,11 @@ pub fn run_one(scn: &Scn, schedule: &[usize]) -> Execution<Outcome> {
         let id = (i + 1) as u32;
         s.spawn(&format!("client{id}"), raw_client(client.clone(), s.exec.clone(), *p, id, scn.bufsize, obs.clone(), hold.clone()));
     }
+    for (i, n) in scn.silent.iter().enumerate() {
+        let id = 70 + i as u32;
+        s.spawn(&format!("silent{id}"), silent_client(client.clone(), id, scn.bufsize, crate::props::iomc::PREFACE[..*n].to_vec(), obs.clone(), hold.clone()));
+    }
+    let n_silent = scn.silent.len() as u32;
     // the shutdown signal: by default at the first quiescent point, as a deviation at any point
     let obs_sig = obs.clone();
     let mut sig_tx = Some(sig_tx);
@@ -120,6 +127,11 @@ pub fn run_one(scn: &Scn, schedule: &[usize]) -> Execution<Outcome> {
                 v.push(("iv-connection-not-closed".to_string(), format!("a server connection task ({}) is still alive at quiescence after the signal although clients are idle", t.name)));
             }
         }
+        for id in 70..70 + n_silent {
+            if o.notes.iter().any(|n| *n == format!("silent{id} connected")) && !o.client_conn_closed.contains_key(&id) {
+                v.push(("v-silent-connection-open".to_string(), format!("client {id} connected and stayed silent; the server has not closed that connection after shutdown")));
+            }
+        }
         for id in 1..=n_clients {
             if matches!(o.responses.get(&id), Some(Ok(_))) && !o.client_conn_closed.contains_key(&id) {
                 v.push(("v-idle-connection-open".to_string(), format!("client {id} holds an idle keep-alive connection that the server has not closed after shutdown")));
@@ -127,8 +139,10 @@ pub fn run_one(scn: &Scn, schedule: &[usize]) -> Execution<Outcome> {
         }
         *checked2.lock().unwrap() = Some(v);
     }));
+    // clients are released only after the post-signal checkpoint has been evaluated
     let hold3 = hold.clone();
-    s.env("release-clients", true, move |s| s.envs[signal_env].fired, move |_s| hold3.open());
+    let checked3 = checked.clone();
+    s.env("release-clients", true, move |s| s.envs[signal_env].fired && checked3.lock().unwrap().is_some(), move |_s| hold3.open());
     let keep_alive_client = client; // dropping the last DuplexClient is listener loss, not part of this scenario
     s.run();
     let mut viols: Vec<(String, String)> = checked.lock().unwrap().clone().unwrap_or_default();
@@ -207,9 +221,18 @@ pub fn scenarios(thorough: bool) -> Vec<Scn> {
     let mk = |name: &str, srv, clients: Vec<Proto>, late, bufsize| Scn {
         name: name.to_string(),
         srv,
+        silent: vec![],
         clients,
         late_client: late,
         bufsize,
+    };
+    let mks = |name: &str, srv, silent: Vec<usize>, clients: Vec<Proto>| Scn {
+        name: name.to_string(),
+        srv,
+        silent,
+        clients,
+        late_client: false,
+        bufsize: 1024,
     };
     v.push(mk("h1-0conn", SrvProto::Http1, vec![], false, 1024));
     v.push(mk("h1-1conn", SrvProto::Http1, vec![Proto::H1], false, 1024));
@@ -220,7 +243,14 @@ pub fn scenarios(thorough: bool) -> Vec<Scn> {
     v.push(mk("h1-1conn-smallbuf", SrvProto::Http1, vec![Proto::H1], false, 16));
     v.push(mk("h1-2conn", SrvProto::Http1, vec![Proto::H1, Proto::H1], false, 1024));
     v.push(mk("auto-2conn-mixed", SrvProto::Auto, vec![Proto::H1, Proto::H2], false, 1024));
+    // connections that are open but have not sent a (complete) first request when the signal comes
+    v.push(mks("auto-silent", SrvProto::Auto, vec![0], vec![]));
+    v.push(mks("auto-partial-preface", SrvProto::Auto, vec![10], vec![]));
+    v.push(mks("h1-silent", SrvProto::Http1, vec![0], vec![]));
+    v.push(mks("h2-silent", SrvProto::Http2, vec![0], vec![]));
+    v.push(mks("auto-silent+h1", SrvProto::Auto, vec![0], vec![Proto::H1]));
     if thorough {
+        v.push(mks("auto-two-silent+h2", SrvProto::Auto, vec![0, 23], vec![Proto::H2]));
         v.push(mk("h2-2conn", SrvProto::Http2, vec![Proto::H2, Proto::H2], false, 1024));
         v.push(mk("h2-1conn-late", SrvProto::Http2, vec![Proto::H2], true, 1024));
         v.push(mk("auto-1conn-h2-smallbuf", SrvProto::Auto, vec![Proto::H2], false, 16));
@@ -238,7 +268,7 @@ pub fn run(args: &Args) -> i32 {
     let scns = scenarios(thorough);
     let results = crate::evidence::par_map(scns.len(), crate::evidence::n_threads(), |i| {
         let scn = &scns[i];
-        let two = scn.clients.len() >= 2;
+        let two = scn.clients.len() + scn.silent.len() >= 2;
         let bound = match (thorough, two) {
             (false, false) => 3,
             (false, true) => 2,
